@@ -396,4 +396,151 @@ theorem svFrame_spec (bpms : List Tp) (svs : List Sv) (omin omax : Rat) (hmins :
         rw [hqk] at this
         exact absurd (lt_of_lt_of_le hlt' this) (not_lt.mpr h1)
 
+/-! ### the outer merge -/
+
+/-- the rows the outer merge produces for one key -/
+def mergeChunk (l r : List Row) (k : Rat) : List MRow :=
+  match l.filter (fun x => x.1 = k), r.filter (fun x => x.1 = k) with
+  | [], rs => rs.map fun y => ⟨k, none, y.2⟩
+  | ls, [] => ls.map fun x => ⟨k, x.2, none⟩
+  | ls, rs => ls.flatMap fun x => rs.map fun y => ⟨k, x.2, y.2⟩
+
+theorem mergeOuter_eq (l r : List Row) :
+    mergeOuter l r = (groupKeys (l.map (·.1) ++ r.map (·.1))).flatMap (mergeChunk l r) := rfl
+
+/-- a merged row sits at its key; each of its two values comes from a row of that side with the same key, or
+is empty because that side has no row with the key -/
+theorem mem_mergeChunk {l r : List Row} {k : Rat} {q : MRow} (hq : q ∈ mergeChunk l r k) :
+    q.t = k ∧
+    ((∃ x ∈ l, x.1 = k ∧ q.bpm = x.2) ∨ (q.bpm = none ∧ ∀ x ∈ l, x.1 ≠ k)) ∧
+    ((∃ y ∈ r, y.1 = k ∧ q.mult = y.2) ∨ (q.mult = none ∧ ∀ y ∈ r, y.1 ≠ k)) := by
+  unfold mergeChunk at hq
+  have hl : ∀ x, x ∈ l.filter (fun x => x.1 = k) → x ∈ l ∧ x.1 = k := by
+    intro x hx; simpa using List.mem_filter.mp hx
+  have hr : ∀ y, y ∈ r.filter (fun x => x.1 = k) → y ∈ r ∧ y.1 = k := by
+    intro y hy; simpa using List.mem_filter.mp hy
+  have hlnil : l.filter (fun x => x.1 = k) = [] → ∀ x ∈ l, x.1 ≠ k := by
+    intro h x hx; simpa using (List.filter_eq_nil_iff.mp h) x hx
+  have hrnil : r.filter (fun x => x.1 = k) = [] → ∀ y ∈ r, y.1 ≠ k := by
+    intro h y hy; simpa using (List.filter_eq_nil_iff.mp h) y hy
+  cases hls : l.filter (fun x => x.1 = k) with
+  | nil =>
+    rw [hls] at hq hl
+    simp only [List.mem_map] at hq
+    obtain ⟨y, hy, rfl⟩ := hq
+    exact ⟨rfl, Or.inr ⟨rfl, hlnil hls⟩, Or.inl ⟨y, (hr y hy).1, (hr y hy).2, rfl⟩⟩
+  | cons x0 ls' =>
+    cases hrs : r.filter (fun x => x.1 = k) with
+    | nil =>
+      rw [hls, hrs] at hq
+      simp only [List.mem_map] at hq
+      obtain ⟨x, hx, rfl⟩ := hq
+      rw [← hls] at hx
+      exact ⟨rfl, Or.inl ⟨x, (hl x hx).1, (hl x hx).2, rfl⟩, Or.inr ⟨rfl, hrnil hrs⟩⟩
+    | cons y0 rs' =>
+      rw [hls, hrs] at hq
+      simp only [List.mem_flatMap, List.mem_map] at hq
+      obtain ⟨x, hx, y, hy, rfl⟩ := hq
+      rw [← hls] at hx
+      rw [← hrs] at hy
+      exact ⟨rfl, Or.inl ⟨x, (hl x hx).1, (hl x hx).2, rfl⟩, Or.inl ⟨y, (hr y hy).1, (hr y hy).2, rfl⟩⟩
+
+theorem mergeChunk_ne_nil {l r : List Row} {k : Rat} (h : k ∈ l.map (·.1) ∨ k ∈ r.map (·.1)) :
+    ∃ q, q ∈ mergeChunk l r k := by
+  unfold mergeChunk
+  cases hls : l.filter (fun x => x.1 = k) with
+  | nil =>
+    cases hrs : r.filter (fun x => x.1 = k) with
+    | nil =>
+      exfalso
+      rcases h with h | h
+      · obtain ⟨x, hx, hk⟩ := List.mem_map.mp h
+        have := (List.filter_eq_nil_iff.mp hls) x hx
+        simp [hk] at this
+      · obtain ⟨y, hy, hk⟩ := List.mem_map.mp h
+        have := (List.filter_eq_nil_iff.mp hrs) y hy
+        simp [hk] at this
+    | cons y0 rs' => exact ⟨⟨k, none, y0.2⟩, by simp⟩
+  | cons x0 ls' =>
+    cases hrs : r.filter (fun x => x.1 = k) with
+    | nil => exact ⟨⟨k, x0.2, none⟩, by simp⟩
+    | cons y0 rs' => exact ⟨⟨k, x0.2, y0.2⟩, by simp⟩
+
+theorem mem_mergeOuter {l r : List Row} {q : MRow} (hq : q ∈ mergeOuter l r) :
+    ((∃ x ∈ l, x.1 = q.t ∧ q.bpm = x.2) ∨ (q.bpm = none ∧ ∀ x ∈ l, x.1 ≠ q.t)) ∧
+    ((∃ y ∈ r, y.1 = q.t ∧ q.mult = y.2) ∨ (q.mult = none ∧ ∀ y ∈ r, y.1 ≠ q.t)) := by
+  rw [mergeOuter_eq, List.mem_flatMap] at hq
+  obtain ⟨k, _, hk⟩ := hq
+  obtain ⟨h1, h2, h3⟩ := mem_mergeChunk hk
+  rw [h1]
+  exact ⟨h2, h3⟩
+
+/-- the offsets of the merged frame are the offsets of either side -/
+theorem mem_t_mergeOuter {l r : List Row} {t : Rat} :
+    t ∈ (mergeOuter l r).map (·.t) ↔ t ∈ l.map (·.1) ∨ t ∈ r.map (·.1) := by
+  rw [mergeOuter_eq]
+  constructor
+  · intro h
+    obtain ⟨q, hq, rfl⟩ := List.mem_map.mp h
+    obtain ⟨k, hk, hqk⟩ := List.mem_flatMap.mp hq
+    rw [(mem_mergeChunk hqk).1]
+    exact List.mem_append.mp (mem_groupKeys.mp hk)
+  · intro h
+    obtain ⟨q, hq⟩ := mergeChunk_ne_nil h
+    exact List.mem_map.mpr ⟨q, List.mem_flatMap.mpr ⟨t, mem_groupKeys.mpr (List.mem_append.mpr h), hq⟩,
+      (mem_mergeChunk hq).1⟩
+
+/-! ### the fills of the merged frame -/
+
+theorem zip_fst_eq : ∀ (b m : List Row), b.map (·.1) = m.map (·.1) → ∀ p ∈ b.zip m, p.1.1 = p.2.1 := by
+  intro b
+  induction b with
+  | nil => intro m _ p hp; simp at hp
+  | cons x xs ih =>
+    intro m h p hp
+    cases m with
+    | nil => simp at hp
+    | cons y ys =>
+      simp only [List.map_cons, List.cons.injEq] at h
+      simp only [List.zip_cons_cons, List.mem_cons] at hp
+      rcases hp with rfl | hp
+      · exact h.1
+      · exact ih ys h.2 p hp
+
+theorem colB_fst (l : List MRow) :
+    (bfill (ffill (l.map fun r => (r.t, r.bpm)))).map (·.1) = l.map (·.t) := by
+  rw [map_fst_bfill, map_fst_ffill, List.map_map]; rfl
+
+theorem colM_fst (l : List MRow) :
+    (bfill (ffill (l.map fun r => (r.t, r.mult)))).map (·.1) = l.map (·.t) := by
+  rw [map_fst_bfill, map_fst_ffill, List.map_map]; rfl
+
+/-- a row of the filled merged frame pairs a row of the filled bpm column with a row of the filled multiplier
+column at the same offset -/
+theorem mem_fillMerged {l : List MRow} {q : MRow} (hq : q ∈ fillMerged l) :
+    ∃ pb ∈ bfill (ffill (l.map fun r => (r.t, r.bpm))), ∃ pm ∈ bfill (ffill (l.map fun r => (r.t, r.mult))),
+      pb.1 = q.t ∧ pm.1 = q.t ∧ pb.2 = q.bpm ∧ pm.2 = q.mult := by
+  unfold fillMerged at hq
+  simp only [List.mem_map] at hq
+  obtain ⟨p, hp, rfl⟩ := hq
+  have hfst := zip_fst_eq _ _ ((colB_fst l).trans (colM_fst l).symm) p hp
+  obtain ⟨pb, pm⟩ := p
+  obtain ⟨h1, h2⟩ := List.of_mem_zip hp
+  exact ⟨pb, h1, pm, h2, rfl, hfst.symm, rfl, rfl⟩
+
+theorem map_t_fillMerged (l : List MRow) : (fillMerged l).map (·.t) = l.map (·.t) := by
+  unfold fillMerged
+  simp only [List.map_map]
+  have hlen : (bfill (ffill (l.map fun r => (r.t, r.bpm)))).length
+      ≤ (bfill (ffill (l.map fun r => (r.t, r.mult)))).length := by
+    have h1 := congrArg List.length (colB_fst l)
+    have h2 := congrArg List.length (colM_fst l)
+    simp only [List.length_map] at h1 h2
+    omega
+  have : ((bfill (ffill (l.map fun r => (r.t, r.bpm)))).zip (bfill (ffill (l.map fun r => (r.t, r.mult))))).map
+      ((fun r : MRow => r.t) ∘ fun p => (⟨p.1.1, p.1.2, p.2.2⟩ : MRow))
+      = (((bfill (ffill (l.map fun r => (r.t, r.bpm)))).zip (bfill (ffill (l.map fun r => (r.t, r.mult))))).map Prod.fst).map (·.1) := by
+    rw [List.map_map]; rfl
+  rw [this, List.map_fst_zip hlen, colB_fst]
+
 end Reamber.Analysis
